@@ -411,6 +411,7 @@ func c8Clone(x any, normNaN bool) any {
 // =============================================================================================
 
 const c8ExhBase = 10_000_000
+const c8RespBase = 5_000_000
 
 type c8Run struct {
 	out   *vOut
@@ -1169,11 +1170,49 @@ func TestVerifC08Codec(t *testing.T) {
 	}
 	for _, c := range vCases(n) {
 		switch {
-		case c >= c8ExhBase:
+		case c >= c8RespBase:
 		case c < 8:
 			h.corpus(c)
 		default:
 			h.generated(c)
+		}
+	}
+	// export-response wrappers: every combination of the partial-success fields, all four signals, canonical document and
+	// every spelling variant (a reader fast path that skips error_message when rejected == 0, or reads the count through a
+	// float, shows here). Case indices from c8RespBase; always run (also in quick).
+	if replay < 0 || (replay >= c8RespBase && replay < c8ExhBase) {
+		idx := c8RespBase
+		for _, sig := range c8Signals {
+			r := h.roots[sig+"resp"]
+			for _, rej := range []int64{0, 1, -1, 1<<53 + 1, math.MaxInt64, math.MinInt64} {
+				for _, msg := range []string{"", "partial: 3 rejected"} {
+					for _, kind := range []string{"canon", "snake", "i64num", "i64str", "mixed"} {
+						c := idx
+						idx++
+						if replay >= 0 && replay != c {
+							continue
+						}
+						pv := reflect.New(r.m.t)
+						ps := pv.Elem().Field(0)
+						for k := 0; k < ps.NumField(); k++ {
+							switch ps.Field(k).Kind() {
+							case reflect.Int64:
+								ps.Field(k).SetInt(rej)
+							case reflect.String:
+								ps.Field(k).SetString(msg)
+							}
+						}
+						h.begin(c, "response", r.name)
+						if kind == "canon" {
+							h.runValue(r, pv.Interface())
+						} else {
+							h.runVariant(r, pv.Interface(), kind, vRand(c))
+						}
+						h.stat("response." + kind)
+						h.end(rej != 0 || msg != "")
+					}
+				}
+			}
 		}
 	}
 	if (vThorough() && replay < 0) || replay >= c8ExhBase {
